@@ -216,6 +216,7 @@ def run(ctx):
         impls.append(lambda ks=ks: ks.as_dict(private=False)["keys"])
         lines.append(f"keyset.asdict {J.enc_keyarg(ks)} N")
         impls.append(lambda ks=ks: ks.as_dict()["keys"])
+    concurrent_exports(ctx, keys)
     answers = model_eval(lines) if ctx.driver_ok else []
     for ln, f, m in zip(lines, impls, answers):
         try:
@@ -226,6 +227,51 @@ def run(ctx):
         ctx.count("as-dict-model", ln[:200], True)
         if mo != impl:
             ctx.disagreements.append({"suite": "as-dict", "request": ln[:300], "model": repr(mo)[:300], "impl": repr(impl)[:300]})
+
+
+def concurrent_exports(ctx, keys):
+    """Schedules: a public export of a key set (or key) overlapping with a private export of the SAME object in another
+    thread - the JWKS endpoint and the task that persists the set.  Under the deterministic line-granular scheduler the
+    public export is stopped after each of its first steps, the other export runs to completion, the public one resumes:
+    whatever the interleaving, the public result has no private member and the private result has them all."""
+    from joserfc.jwk import KeySet
+    from harness import sched
+    rng = ctx.rng
+    pred = lambda fn: "/joserfc/" in fn  # noqa: E731
+    members = [k for k in keys if k.is_private][:0] + rng.sample([k for k in keys if k.is_private or k.key_type == "oct"], 6)
+    for shape in ("keyset", "key"):
+        for other in ("private", "default"):
+            def mk():
+                ks = KeySet([type(k).import_key(k.as_dict(private=True) if k.key_type != "oct" else k.as_dict()) for k in members])
+                obj = ks if shape == "keyset" else ks.keys[0]
+                return obj
+            obj = mk()
+            solo = sched.run([lambda: obj.as_dict(private=False)], [], pred)
+            n_steps = solo.steps[0]
+            cuts = range(0, n_steps + 1) if ctx.tier != "quick" else sorted(set(list(range(0, min(n_steps, 40))) + list(range(0, n_steps + 1, max(1, n_steps // 40)))))
+            for cut in cuts:
+                obj = mk()
+                t_pub = lambda: obj.as_dict(private=False)  # noqa: E731
+                t_prv = (lambda: obj.as_dict(private=True)) if other == "private" else (lambda: obj.as_dict())  # noqa: E731
+                out = sched.run([t_pub, t_prv], [(0, cut), (1, 10 ** 6), (0, 10 ** 6)], pred)
+                ctx.count("concurrent-export", (shape, other, cut), True, f"{shape}:{other}")
+                res = []
+                for r in out.results:
+                    res.append(r[1] if r and r[0] == "ok" else None)
+                if res[0] is None or res[1] is None:
+                    ctx.report(f"an export failed under a schedule ({shape}, public || {other}, public stopped after {cut} steps): {out.results}",
+                               {"shape": shape, "other": other, "cut": cut}, f"concurrent-export:{shape}:failed")
+                    break
+                pub_entries = res[0]["keys"] if shape == "keyset" else [res[0]]
+                prv_entries = res[1]["keys"] if shape == "keyset" else [res[1]]
+                leaked = [(i, sorted(PRIVATE_NAMES & set(e))) for i, e in enumerate(pub_entries) if PRIVATE_NAMES & set(e)]
+                lost = [i for i, e in enumerate(prv_entries) if not (PRIVATE_NAMES & set(e))]
+                if leaked or lost or len(pub_entries) != len(prv_entries):
+                    ctx.report(f"as_dict(private=False) of a {shape} overlapping with as_dict({'private=True' if other == 'private' else ''}) on the same object in another thread "
+                               f"(public export stopped after {cut} steps): " + (f"public entries {leaked} carry private members" if leaked else f"private entries {lost} lost theirs"),
+                               {"shape": shape, "other": other, "schedule": [(0, cut), (1, "rest"), (0, "rest")], "kty": [e.get("kty") for e in pub_entries]},
+                               f"concurrent-export:{shape}:{'leak' if leaked else 'lost'}")
+                    break
 
 
 def search(ctx):
